@@ -412,8 +412,10 @@ def run_exprs(case, res):
             term = build(fields)
             res.transitions += 1
             exp_f = {(("z%d" % i, None), "x" if same_col else "c%d" % i) for i in range(n)}
+            if zname.endswith(".star"):
+                exp_f = {(tab, "*") for tab, _ in exp_f}  # the operand is the star of the slot's table: a Field named '*'
             try:
-                got_f = {((f.table._table_name, f.table.alias), f.name) for f in term.fields_()}
+                got_f = {((getattr(f.table, "_table_name", None), getattr(f.table, "alias", None)), f.name) for f in term.fields_()}
                 got_t = {(t._table_name, t.alias) for t in term.tables_}
             except Exception as e:
                 res.violate("C17|fields_|raises|%s" % zname, "fields_()/tables_ raised %s" % type(e).__name__, term=zname)
